@@ -42,6 +42,13 @@ def rand_row(rng, W, wide_ok, density):
         else:
             row[x] = (rng.choice(NARROW), st)
             x += 1
+    if rng.random() < 0.06:
+        # a float with left < 0: cells at negative column indices (not visible, and since
+        # fix aa7dc6e not counted by get_max_column_index; C06-F3 was the case "all counting
+        # cells at indices <= -2", which is generated here as well)
+        lo = -rng.randint(1, 4)
+        for x2 in range(lo, rng.choice([0, 0, -1, lo + 1]) if lo < -1 else 0):
+            row[x2] = (rng.choice(NARROW), rand_style(rng))
     if rng.random() < 0.12:
         # content beyond the right border (a float with explicit left+width sticking out);
         # usually the visible part then reaches the last column
@@ -160,8 +167,8 @@ def rand_spec(rng, maxW, maxH, nops, wide_ok=True, transf_ok=False):
             ops.append(("erase",))
             prev = None
             continue
-        if r < 0.12 and i > 0 and ops[-1][0] == "render" and ops[-1][2]:
-            ops.append(("reset",))
+        if r < 0.12 and i > 0 and (ops[-1][0] in ("erase", "reset") or (ops[-1][0] == "render" and ops[-1][2])):
+            ops.append(("reset",))      # only where the renderer is fresh (the contract of reset)
             continue
         if rng.random() < 0.1:
             cfg = rng.randrange(ncfg)
@@ -235,3 +242,35 @@ def overhang_specs(rng):
                         for seq in ([row, row], [row, row2, row], [row, row3, row], [row3, row, row4], [row4, row]):
                             yield {"fs": fs, "cfgs": [(0, rng.choice([1, 8, 24]), 0)],
                                    "ops": [("render", 0, False, W, 2, scr(r)) for r in seq]}
+
+
+def neg_cols_specs(rng):
+    """Rows with cells at negative column indices (a float with left < 0): everything
+    negative but reaching index -1, negative + visible, shrinking to negative only."""
+    for W in (2, 4):
+        for fs in (False, True):
+            for st in ("", "reverse"):
+                a = {-2: ("a", st), -1: ("b", st)}
+                b = {-2: ("a", st), -1: ("b", st), 0: ("c", st), 1: ("d", st)}
+                c = {0: ("x", "")}
+                d = {-3: (" ", ""), -1: ("q", st), 1: ("z", "")}
+
+                def scr(r, cx):
+                    return {"height": 1, "show_cursor": True, "cursor": (cx, 0), "rows": {0: dict(r)}, "zwe": {}}
+                for seq in ([c, a], [a, a], [b, a, b], [a, b], [d, c, d], [c, d, a]):
+                    yield {"fs": fs, "cfgs": [(0, 8, 0)],
+                           "ops": [("render", 0, False, W, 2, scr(r, rng.randrange(W))) for r in seq]}
+
+
+def neg_only_specs(rng):
+    """Regression stream for C06-F3 (fixed by aa7dc6e): a row whose counting cells are all at indices <= -2."""
+    for W in (3, 5):
+        for fs in (False, True):
+            neg = {-3: ("a", "reverse"), -2: ("b", "reverse")}
+            x = {0: ("x", "")}
+
+            def scr(r, cx):
+                return {"height": 1, "show_cursor": True, "cursor": (cx, 0), "rows": {0: dict(r)}, "zwe": {}}
+            yield {"fs": fs, "cfgs": [(0, 8, 0)],
+                   "ops": [("render", 0, False, W, 2, scr(x, 1)), ("render", 0, False, W, 2, scr(neg, 1)),
+                           ("render", 0, False, W, 2, scr(neg, W - 1)), ("render", 0, False, W, 2, scr(neg, 1))]}
